@@ -126,6 +126,7 @@ PROPS = {
         ],
     },
     "C11": {
+        "also": ["RN"],
         "stateless": True,
         "gens": {
             "quick": [
@@ -148,6 +149,7 @@ PROPS = {
         ],
     },
     "C12": {
+        "also": ["RN"],
         "gens": {
             "quick": [
                 {"name": "repo testdata (8 scripts)", "args": ["confchange", "--testdata"]},
@@ -169,6 +171,7 @@ PROPS = {
         ],
     },
     "C14": {
+        "also": ["RN"],
         "gens": {
             "quick": [
                 {"name": "random 20000x40", "args": ["raftlog", "--seed", "{seed}", "--cases", "20000", "--len", "40"]},
@@ -189,6 +192,7 @@ PROPS = {
         ],
     },
     "C18": {
+        "also": ["RN"],
         "gens": {
             "quick": [
                 {"name": "random 5000x40", "args": ["inflights", "--seed", "{seed}", "--cases", "5000", "--len", "40"]},
@@ -207,6 +211,7 @@ PROPS = {
         ],
     },
     "C19": {
+        "also": ["RN"],
         "gens": {
             "quick": [
                 {"name": "random 5000x30", "args": ["memstorage", "--seed", "{seed}", "--cases", "5000", "--len", "30"]},
